@@ -52,6 +52,11 @@ def cases():
             add(kind, cl, "swap-member", mk + 'a.swap(b); E.wrote = true; E.chk(a.get() == E.a2() && b.get() == E.a1(), "values-not-exchanged", "a.swap(b) did not exchange the owned pointer values");')
             add(kind, cl, "swap-adl", mk + 'using std::swap; swap(a, b); E.wrote = true; E.chk(a.get() == E.a2() && b.get() == E.a1(), "values-not-exchanged", "swap(a,b) did not exchange the owned pointer values");')
             add(kind, cl, "write-through-&", mk + 'auto pp = &a; *pp = E.a3(); E.wrote = true; E.chk(a.get() == E.a3(), "wrong-value", "writing through &w did not change the owned pointer");')
+            # the same writes observed only through &w (no other accessor involved)
+            via = "auto pa = &a; auto pb = &b; "
+            add(kind, cl, "swap-member(via &w)", mk + via + 'a.swap(b); E.wrote = true; E.chk(*pa == E.a2() && *pb == E.a1(), "values-not-exchanged", "a.swap(b) did not exchange the owned pointer values");')
+            add(kind, cl, "move-assign(via &w)", mk + via + 'a = std::move(b); E.wrote = true; E.chk(*pa == E.a2(), "wrong-value", "a = std::move(b) did not transfer the owned pointer");')
+            add(kind, cl, "copy-assign-from-const(via &w)", mk + via + 'a = c07p::cst(b); E.wrote = true; E.chk(*pa == E.a2() && *pb == E.a2(), "wrong-value", "a = const b did not copy the owned pointer");')
             add(kind, cl, "null", "auto a = " + fac + "(PT(nullptr)); auto c(a); " + 'E.chk(a.get() == nullptr && c.get() == nullptr, "wrong-value", "an owned null pointer is not null");')
         # ---- reference closure: built from the pointer variable, aliases it
         mk = "auto a = %s(E.p); auto b = %s(E.q); (void)b;" % (fac, fac)
